@@ -19,7 +19,12 @@ StripSeq(fs) == [j \in 1..Len(fs) |-> Strip(fs[j])]
 
 -----------------------------------------------------------------------------
 \* Observed cache (sorted list of [key, def]) -> map
-ListToMap(L) == [x \in {L[i].key : i \in 1..Len(L)} |-> L[CHOOSE i \in 1..Len(L) : L[i].key = x].def]
+\* (the harness sorts the list by key; a binary search keeps the conversion O(n log n) for caches of thousands of ids)
+BSearch(L, x) == FoldLeft(LAMBDA a, i : IF a[1] >= a[2] THEN a
+                                        ELSE LET mid == (a[1] + a[2]) \div 2 IN
+                                             IF L[mid].key < x THEN <<mid + 1, a[2]>> ELSE <<a[1], mid>>,
+                          <<1, Len(L)>>, Range1(17))[1]
+ListToMap(L) == [x \in {L[i].key : i \in 1..Len(L)} |-> L[BSearch(L, x)].def]
 ObsCache(c, last) == [data |-> ListToMap(c.data), opts |-> ListToMap(c.opts), last |-> last]
 ObsTm(t, last) == [v9 |-> ObsCache(t.v9, last.v9), ipfix |-> ObsCache(t.ipfix, last.ipfix)]
 EmptyLast == [v9 |-> EmptyMap, ipfix |-> EmptyMap]
